@@ -23,6 +23,7 @@ package bchutil
 
 //@ func bchutil.verifyChecksum
 //@   ensures result == (cashaddr.pm(prefix, len(prefix), payload, len(payload)) == 0)
+//@   ensures-by bchutil.lemmaChecksumVerifies: len(payload) >= 8 && (forall j :: 0 <= j && j < 8 ==> payload[len(payload) - 8 + j] == cashaddr.dg(cashaddr.cksum(prefix, len(prefix), payload, len(payload) - 8), j)) ==> cashaddr.pm(prefix, len(prefix), payload, len(payload)) == 0
 //@   modifies nothing
 //@   uses fold_is_foldc
 //@   opaque cashaddr.step
@@ -51,9 +52,18 @@ package bchutil
 //@   ensures err == nil ==> forall j :: 0 <= j && j < len(result0) ==> result0[j] == str[j] | 0x20
 //@   ensures err == nil ==> forall j :: 0 <= j && j < len(result1) + 8 ==> str[j+len(result0)+1] < 128 && result1[j] < 32 && result1[j] == u8(CharsetRev[str[j+len(result0)+1]])
 //@   ensures err == nil ==> cashaddr.pm(result0, len(result0), result1, len(result1) + 8) == 0
+//@   ensures err == nil ==> forall j :: 0 <= j && j < len(result1) ==> result1[j] == u8(cashaddr.rev(str[j+len(result0)+1]))
 //@   ensures err != nil ==> len(result0) == 0 && len(result1) == 0
+//@   ensures (0 < cashaddr.colon(str, 0, len(str)) && cashaddr.colon(str, 0, len(str)) < len(str) - 8 && (forall j :: 0 <= j && j < cashaddr.colon(str, 0, len(str)) ==> str[j] >= 97 && str[j] <= 122) && (forall j :: cashaddr.colon(str, 0, len(str)) < j && j < len(str) ==> cashaddr.rev(str[j]) != -1 && ((str[j] >= 97 && str[j] <= 122) || (str[j] >= 48 && str[j] <= 57))) && (cashaddr.folds(1, str, cashaddr.colon(str, 0, len(str)), len(str)) ^ 1) == 0) ==> err == nil && len(result0) == cashaddr.colon(str, 0, len(str))
 //@   modifies nothing
 //@   opaque cashaddr.step
+//@   uses ca_colon_props(str, len(str), len(str))
+//@   loop 1 invariant (0 < cashaddr.colon(str, 0, len(str)) && cashaddr.colon(str, 0, len(str)) < len(str) - 8 && (forall j :: 0 <= j && j < cashaddr.colon(str, 0, len(str)) ==> str[j] >= 97 && str[j] <= 122) && (forall j :: cashaddr.colon(str, 0, len(str)) < j && j < len(str) ==> cashaddr.rev(str[j]) != -1 && ((str[j] >= 97 && str[j] <= 122) || (str[j] >= 48 && str[j] <= 57)))) ==> (i <= cashaddr.colon(str, 0, len(str)) ==> prefixSize == 0) && (i > cashaddr.colon(str, 0, len(str)) ==> prefixSize == cashaddr.colon(str, 0, len(str))) && !upper
+//@   loop 3 invariant (0 < cashaddr.colon(str, 0, len(str)) && cashaddr.colon(str, 0, len(str)) < len(str) - 8 && (forall j :: 0 <= j && j < cashaddr.colon(str, 0, len(str)) ==> str[j] >= 97 && str[j] <= 122) && (forall j :: cashaddr.colon(str, 0, len(str)) < j && j < len(str) ==> cashaddr.rev(str[j]) != -1 && ((str[j] >= 97 && str[j] <= 122) || (str[j] >= 48 && str[j] <= 57)))) ==> prefixSize == cashaddr.colon(str, 0, len(str))
+//@   loop 3 invariant forall j :: 0 <= j && j < i ==> values[j] == u8(cashaddr.rev(str[j+prefixSize+1]))
+//@   assert after verifyChecksum#1: (0 < cashaddr.colon(str, 0, len(str)) && cashaddr.colon(str, 0, len(str)) < len(str) - 8 && (forall j :: 0 <= j && j < cashaddr.colon(str, 0, len(str)) ==> str[j] >= 97 && str[j] <= 122) && (forall j :: cashaddr.colon(str, 0, len(str)) < j && j < len(str) ==> cashaddr.rev(str[j]) != -1 && ((str[j] >= 97 && str[j] <= 122) || (str[j] >= 48 && str[j] <= 57)))) ==> forall k :: 0 <= k && k < len(str) ==> cashaddr.ats(str, cashaddr.colon(str, 0, len(str)), k) == cashaddr.at(prefix, cashaddr.colon(str, 0, len(str)), values, k)
+//@   assert after verifyChecksum#1: lemma folds_is_foldc(1, str, cashaddr.colon(str, 0, len(str)), prefix, values, len(str))
+//@   assert after verifyChecksum#1: (0 < cashaddr.colon(str, 0, len(str)) && cashaddr.colon(str, 0, len(str)) < len(str) - 8 && (forall j :: 0 <= j && j < cashaddr.colon(str, 0, len(str)) ==> str[j] >= 97 && str[j] <= 122) && (forall j :: cashaddr.colon(str, 0, len(str)) < j && j < len(str) ==> cashaddr.rev(str[j]) != -1 && ((str[j] >= 97 && str[j] <= 122) || (str[j] >= 48 && str[j] <= 57))) && (cashaddr.folds(1, str, cashaddr.colon(str, 0, len(str)), len(str)) ^ 1) == 0) ==> $ret
 //@   loop 1 invariant 0 <= i && i <= len(str) && 0 <= prefixSize && (prefixSize == 0 || prefixSize < i)
 //@   loop 1 invariant prefixSize > 0 ==> str[prefixSize] == ':'
 //@   loop 1 invariant prefixSize == 0 ==> forall j :: 0 <= j && j < i ==> cashaddr.isLetter(str[j])
@@ -831,4 +841,62 @@ package bchutil
 //@   assert after cat#1: forall j :: 0 <= j && j < 8 ==> cashaddr.at(prefix, len(prefix), $q, len(prefix) + 1 + len($p) + j) == cashaddr.dg(cashaddr.z8(cashaddr.foldc(1, prefix, len(prefix), $p, len(prefix) + 1 + len($p))) ^ 1, j)
 //@   assert after cat#1: cashaddr.foldc(1, prefix, len(prefix), $q, len(prefix) + 1 + len($p) + 8) == 1
 //@   assert after cat#1: cashaddr.pm(prefix, len(prefix), $q, len($q)) == 0
+//@   assert after cat#1: cashaddr.cksum(prefix, len(prefix), $q, len($q) - 8) == cashaddr.cksum(prefix, len(prefix), $p, len($p))
+//@   assert after verifyChecksum#1: len($arg1) >= 8 && (forall j :: 0 <= j && j < 8 ==> $arg1[len($arg1) - 8 + j] == cashaddr.dg(cashaddr.cksum(prefix, len(prefix), $arg1, len($arg1) - 8), j))
 //@   assert after verifyChecksum#1: $ret
+
+//@ lemmafunc bchutil.lemmaDecodeEncodeCashAddr
+//@   requires len(prefix) >= 1 && (forall j :: 0 <= j && j < len(prefix) ==> prefix[j] >= 97 && prefix[j] <= 122) && (forall k :: 0 <= k && k < len(payload) ==> payload[k] < 32)
+//@   opaque cashaddr.step
+//@   skolemize bchutil.DecodeCashAddress
+//@   bind after createChecksum#1: $p = payload
+//@   bind after cat#1: $q = $ret
+//@   assert after cat#1: len($q) == len($p) + 8 && (forall k :: 0 <= k && k < len($p) ==> $q[k] == $p[k] && $q[k] < 32)
+//@   assert after cat#1: $q[len($p) + 0] == cashaddr.dg(cashaddr.cksum(prefix, len(prefix), $p, len($p)), 0) && $q[len($p) + 0] < 32
+//@   assert after cat#1: $q[len($p) + 1] == cashaddr.dg(cashaddr.cksum(prefix, len(prefix), $p, len($p)), 1) && $q[len($p) + 1] < 32
+//@   assert after cat#1: $q[len($p) + 2] == cashaddr.dg(cashaddr.cksum(prefix, len(prefix), $p, len($p)), 2) && $q[len($p) + 2] < 32
+//@   assert after cat#1: $q[len($p) + 3] == cashaddr.dg(cashaddr.cksum(prefix, len(prefix), $p, len($p)), 3) && $q[len($p) + 3] < 32
+//@   assert after cat#1: $q[len($p) + 4] == cashaddr.dg(cashaddr.cksum(prefix, len(prefix), $p, len($p)), 4) && $q[len($p) + 4] < 32
+//@   assert after cat#1: $q[len($p) + 5] == cashaddr.dg(cashaddr.cksum(prefix, len(prefix), $p, len($p)), 5) && $q[len($p) + 5] < 32
+//@   assert after cat#1: $q[len($p) + 6] == cashaddr.dg(cashaddr.cksum(prefix, len(prefix), $p, len($p)), 6) && $q[len($p) + 6] < 32
+//@   assert after cat#1: $q[len($p) + 7] == cashaddr.dg(cashaddr.cksum(prefix, len(prefix), $p, len($p)), 7) && $q[len($p) + 7] < 32
+//@   assert after cat#1: forall j :: 0 <= j && j < 8 ==> $q[len($p) + j] == cashaddr.dg(cashaddr.cksum(prefix, len(prefix), $p, len($p)), j)
+//@   assert after cat#1: forall k :: 0 <= k && k < len($q) ==> $q[k] < 32
+//@   assert after cat#1: forall k :: 0 <= k && k < len(prefix) + 1 + len($p) ==> cashaddr.at(prefix, len(prefix), $q, k) == cashaddr.at(prefix, len(prefix), $p, k)
+//@   assert after cat#1: lemma foldc_ext(1, prefix, len(prefix), $q, len(prefix) + 1 + len($p), $p, len(prefix) + 1 + len($p))
+//@   assert after cat#1: cashaddr.cksum(prefix, len(prefix), $q, len($q) - 8) == cashaddr.cksum(prefix, len(prefix), $p, len($p))
+//@   assert after verifyChecksum#1: cashaddr.pm(prefix, len(prefix), $q, len($q)) == 0
+//@   bind after encode#1: $e = $ret
+//@   assert after verifyChecksum#1: len(payload) == len($p) && forall k :: 0 <= k && k < len($p) ==> payload[k] == $p[k]
+//@   assert after verifyChecksum#1: forall k :: 0 <= k && k < len(prefix) + 1 + len($p) ==> cashaddr.at(prefix, len(prefix), payload, k) == cashaddr.at(prefix, len(prefix), $p, k)
+//@   assert after verifyChecksum#1: lemma foldc_ext(1, prefix, len(prefix), payload, len(prefix) + 1 + len($p), $p, len(prefix) + 1 + len($p))
+//@   assert after verifyChecksum#1: cashaddr.cksum(prefix, len(prefix), payload, len(payload)) == cashaddr.cksum(prefix, len(prefix), $p, len($p))
+//@   assert after encode#1 as A1: len($e) == len($p) + 8 && len($q) == len($p) + 8 && len($p) >= 0 && forall k :: 0 <= k && k < len($p) ==> $e[k] == Charset[int($q[k])]
+//@   assert after encode#1 as B0: $e[len($p) + 0] == Charset[int($q[len($p) + 0])]
+//@   assert after encode#1 as B1: $e[len($p) + 1] == Charset[int($q[len($p) + 1])]
+//@   assert after encode#1 as B2: $e[len($p) + 2] == Charset[int($q[len($p) + 2])]
+//@   assert after encode#1 as B3: $e[len($p) + 3] == Charset[int($q[len($p) + 3])]
+//@   assert after encode#1 as B4: $e[len($p) + 4] == Charset[int($q[len($p) + 4])]
+//@   assert after encode#1 as B5: $e[len($p) + 5] == Charset[int($q[len($p) + 5])]
+//@   assert after encode#1 as B6: $e[len($p) + 6] == Charset[int($q[len($p) + 6])]
+//@   assert after encode#1 as B7: $e[len($p) + 7] == Charset[int($q[len($p) + 7])]
+//@   assert after encode#1 as E1 from A1, B0, B1, B2, B3, B4, B5, B6, B7: len($e) == len($q) && forall k :: 0 <= k && k < len($e) ==> $e[k] == Charset[int($q[k])]
+//@   assert after encode#1 as T1 from nothing: forall v u8 :: v < 32 ==> Charset[int(v)] == cashaddr.chr(int(v))
+//@   assert after encode#1 as Q1: forall k :: 0 <= k && k < len($q) ==> $q[k] < 32
+//@   assert after encode#1 as E2 from E1, T1, Q1: len($e) == len($q) && forall k :: 0 <= k && k < len($e) ==> $e[k] == cashaddr.chr(int($q[k]))
+//@   assert after encode#1 as T2 from nothing: forall v u8 :: v < 32 ==> cashaddr.rev(cashaddr.chr(int(v))) == int(v) && cashaddr.chr(int(v)) != 58 && ((cashaddr.chr(int(v)) >= 97 && cashaddr.chr(int(v)) <= 122) || (cashaddr.chr(int(v)) >= 48 && cashaddr.chr(int(v)) <= 57))
+//@   assert after encode#1 as R1 from E2, T2, Q1: forall k :: 0 <= k && k < len($e) ==> cashaddr.rev($e[k]) == int($q[k]) && $e[k] != 58 && (($e[k] >= 97 && $e[k] <= 122) || ($e[k] >= 48 && $e[k] <= 57))
+//@   assert after DecodeCashAddress#1 as S1: len($arg0) == len(prefix) + 1 + len($p) + 8 && (forall j :: 0 <= j && j < len(prefix) ==> $arg0[j] == prefix[j]) && $arg0[len(prefix)] == 58 && (forall k :: 0 <= k && k < len($e) ==> $arg0[len(prefix) + 1 + k] == $e[k])
+//@   assert after DecodeCashAddress#1: lemma ca_colon_props($arg0, len($arg0), len($arg0))
+//@   assert after DecodeCashAddress#1: cashaddr.colon($arg0, 0, len($arg0)) == len(prefix)
+//@   assert after DecodeCashAddress#1 as S2: forall j :: len(prefix) < j && j < len($arg0) ==> cashaddr.rev($arg0[j]) == int($q[j - len(prefix) - 1]) && cashaddr.rev($arg0[j]) != -1 && (($arg0[j] >= 97 && $arg0[j] <= 122) || ($arg0[j] >= 48 && $arg0[j] <= 57))
+//@   assert after DecodeCashAddress#1 as S3: len($q) == len($p) + 8 && len($p) >= 0 && len(prefix) >= 1
+//@   assert after DecodeCashAddress#1 from S1, S2, S3: forall k :: 0 <= k && k < len($arg0) ==> cashaddr.ats($arg0, len(prefix), k) == cashaddr.at(prefix, len(prefix), $q, k)
+//@   assert after DecodeCashAddress#1: lemma folds_is_foldc(1, $arg0, len(prefix), prefix, $q, len($arg0))
+//@   assert after DecodeCashAddress#1: (cashaddr.folds(1, $arg0, len(prefix), len($arg0)) ^ 1) == 0
+//@   assert after DecodeCashAddress#1: $ret2 == nil
+//@   assert after DecodeCashAddress#1: len($ret0) == len(prefix) && forall j :: 0 <= j && j < len(prefix) ==> $ret0[j] == prefix[j]
+//@   assert after DecodeCashAddress#1 as D0: len($ret1) == len($p)
+//@   assert after DecodeCashAddress#1 as D1: forall j :: 0 <= j && j < len($ret1) ==> $ret1[j] == u8(cashaddr.rev($arg0[j + len(prefix) + 1]))
+//@   assert after DecodeCashAddress#1 as D2: forall j :: 0 <= j && j < len($p) ==> cashaddr.rev($arg0[j + len(prefix) + 1]) == int($q[j]) && $q[j] == $p[j]
+//@   assert after DecodeCashAddress#1 from D0, D1, D2: len($ret1) == len($p) && forall j :: 0 <= j && j < len($p) ==> $ret1[j] == $p[j]
